@@ -198,7 +198,13 @@ func (g *jsonGen) mutate(doc string) string {
 	}
 	b := []byte(doc)
 	i := g.rng.Intn(len(b))
-	switch g.rng.Intn(6) {
+	switch g.rng.Intn(7) {
+	case 6: // insert a run of control bytes that are not JSON whitespace (form feed, escape)
+		run := make([]byte, 8+g.rng.Intn(12))
+		for k := range run {
+			run[k] = "\f\x1b"[g.rng.Intn(2)]
+		}
+		return string(append(b[:i:i], append(run, b[i:]...)...))
 	case 0: // delete a byte
 		return string(append(b[:i:i], b[i+1:]...))
 	case 1: // duplicate a byte
